@@ -257,6 +257,11 @@ def run(ctx):
             if ok:
                 so = prim.origin_of_operand(pf, sp[0][1].args[0])
                 ok = prim.user_local_behind(pf, sp[0][1].args[0]) == bl[0] or any(x.k == "var" and x.a.get("local") == bl[0] for x in prim.expand_single_def_vars(pf, so).walk()) or "buffer" in so.fmt()
+                # what is split is the buffer itself: between the read and the split only views of the same bytes
+                # (Deref, as_slice, ...) — a trim/strip/sub-slice on the way drops bytes that belong to the last name
+                via = sorted({c.a["name"] for c in prim.expand_single_def_vars(pf, so).call_nodes()} - {"deref", "deref_mut", "as_slice", "as_mut_slice", "as_ref", "borrow", "as_bytes", "as_mut", "new", "with_capacity", "default"})
+                sliced = [x.k for x in prim.expand_single_def_vars(pf, so).walk() if x.k in ("index", "subslice")]
+                ctx.ob("R4", "split-receives-the-whole-buffer", not via and not sliced, "the NUL split is applied to the buffer through %s; oracle: the bytes read, all of them (views only: deref/as_slice) — a trailing newline or blank belongs to the last name when no NUL ends the list" % (via + sliced), fn=pf, where=prim.site(pf, sp[0][0]), how="provenance slice of the split receiver")
                 co = prim.origin_of_operand(pf, sp[0][1].args[1]).strip()
                 cf = prog.fns.get(str(co.a)[8:]) if co.k == "agg" and str(co.a).startswith("closure:") else None
                 if cf is None:
